@@ -306,8 +306,19 @@ def passes(ctx, facts):
                                 found = True
                             elif not names:
                                 # let (mut left, mut right) = ..: separate locals; use variable names
+                                # position in the (left, right) tuple the local was destructured from (names are irrelevant)
+                                pos = None
+                                for dbb, didx, d in lb.defs().get(p[0], []):
+                                    if didx != "t" and d["k"] == "use":
+                                        pl = F.op_place(d["o"]) or []
+                                        fs = [x[1] for x in pl[1:] if isinstance(x, list) and x[0] == "f"]
+                                        if fs:
+                                            pos = fs[-1]
                                 nm = lb.var_name(p[0])
-                                if nm:
+                                if pos is not None:
+                                    tbl[int(v)] = pos
+                                    found = True
+                                elif nm:
                                     tbl[int(v)] = nm
                                     found = True
                     if found:
